@@ -452,8 +452,11 @@ def gen_script_case(rng, idx):
         r = rng.random()
         if r < 0.15 and cur[0] == 'D':
             raw = not raw
-            lines.append('units raw' if raw else 'units logical')
+            # rgb units count time in seconds like logical units
+            lines.append('units raw' if raw else rng.choice(['units logical', 'units logical', 'units rgb']))
             cur = ('D', raw, cur[2] * 1000.0 if raw else cur[2] / 1000.0)
+        elif r < 0.22 and not raw and cur[0] == 'D':
+            lines.append(rng.choice(['units rgb', 'units logical']))
         r = rng.random()
         if r < 0.15:
             texts = pattern_for(rng, t_est + 1.0, wide=(POLICIES[idx % len(POLICIES)] in ('random', 'lazy-script')))
@@ -488,6 +491,9 @@ FIXED_SCRIPTS = [
     {'script': 'time 2 set all\n', 'waits': [('D', False, 2)], 'works': [0.0]},
     {'script': 'units raw time 1500 set all\n', 'waits': [('D', True, 1500)], 'works': [0.0]},
     {'script': 'time at 13:48 set all\n', 'waits': [('T', ['13:48'])], 'works': [0.0]},
+    {'script': 'units rgb time 2 set all\n', 'waits': [('D', False, 2)], 'works': [0.0]},
+    {'script': 'time 1.5 units rgb set all on all units logical set all\n', 'waits': [('D', False, 1.5)] * 3, 'works': [0.0, 0.25, 0.0]},
+    {'script': 'units raw time 750 set all units rgb set all\n', 'waits': [('D', True, 750), ('D', False, 0.75)], 'works': [0.0, 0.0]},
     {'script': 'time 2 set all set all set all\n', 'waits': [('D', False, 2)] * 3, 'works': [0.5, 3.5, 0.0]},
     {'script': 'time 0 set all on all\n', 'waits': [('D', False, 0)] * 2, 'works': [1.0, 1.0]},
     {'script': 'time 1 set all time at 13:4* or 9:15 set all time 1.5 set all set all\n',
